@@ -40,6 +40,7 @@ func SpyCount(fullFuncName string) int                { panic("sym") } // calls 
 func SpyArgZ(fullFuncName string, call, arg int) Z    { panic("sym") } // numeric argument (0 = receiver)
 func SpyArgBool(fullFuncName string, call, arg int) bool { panic("sym") }
 func SpyErrNil(fullFuncName string, call int) bool    { panic("sym") } // did the stub return a nil error
+func StubMonotone(fullFuncName string, arg, result int) { panic("sym") } // stub that is non-decreasing in argument arg (0 = receiver) for result index
 func Note(assumption string)                { panic("sym") } // echoed under assumptions in the evidence file
 
 // Branch-free connectives for specifications (Go's && || and if fork the symbolic execution; these do not).
